@@ -9,7 +9,10 @@ use sprs::PermOwned;
 use yui::UnionFind;
 
 cfg_if::cfg_if! { if #[cfg(feature = "multithread")] { 
+    #[cfg(not(yui_verif))]
     use std::sync::Mutex;
+    #[cfg(yui_verif)]
+    use yui::verif::sync::Mutex;
 }}
 
 use crate::MatTrait;
@@ -69,13 +72,7 @@ where R: Zero + Send + Sync {
 
             (0 .. l - 1).into_par_iter().for_each(|i|
                 (i + 1 .. l).into_par_iter().for_each(|j| {
-                    #[cfg(yui_verif)]
-                    yui::verif::point("decomp:check", Some(&|| u.try_lock().is_ok()));
-
                     if !u.lock().unwrap().is_same(i, j) && col_intersects(a, cols[i], cols[j]) { 
-                        #[cfg(yui_verif)]
-                        yui::verif::point("decomp:union", Some(&|| u.try_lock().is_ok()));
-
                         u.lock().unwrap().union(i, j)
                     }
                 })
